@@ -29,6 +29,24 @@ fn remap(m: &Message<'static>, from_own: u16, from_other: u16, own: u16, other: 
 }
 
 fn random_page(rng: &mut StdRng, id: u8, w: u32, h: u32) -> Page<'static> {
+    if rng.gen_bool(0.15) {
+        // a page whose first chunk looks like protocol data: a real configuration block, or such a block behind a page header
+        let base = Page::new(PageId(id), w, h);
+        let mut bytes = base.as_bytes().to_vec();
+        let block = ALL_TYPES[rng.gen_range(0..11)].to_bytes();
+        let keep_header = rng.gen_bool(0.5);
+        let data_end = 4 + w as usize * ((h as usize + 7) / 8);
+        for k in 0..16.min(data_end) {
+            if keep_header && k < 4 {
+                bytes[k] = [block[0], 0x10, 0, 0][k];
+            } else {
+                bytes[k] = block[k];
+            }
+        }
+        if let Ok(p) = Page::from_bytes(w, h, bytes) {
+            return p;
+        }
+    }
     let mut p = Page::new(PageId(id), w, h);
     match rng.gen_range(0..4) {
         0 => {}
@@ -72,7 +90,8 @@ fn run_program(out: &mut TraceOut, rng: &mut StdRng, bus: Rc<RefCell<VirtualSign
         return;
     }
     let (w, h) = typ.dimensions();
-    let npages = rng.gen_range(0..=4);
+    // now and then a long list: more than 256 pages / more than 64 KiB / more than 4096 chunks in one transfer
+    let npages = if rng.gen_range(0..40) == 0 { [200usize, 300, 700][rng.gen_range(0..3)] } else { rng.gen_range(0..=4) };
     let pages: Vec<Page<'static>> = (0..npages).map(|i| random_page(rng, [0u8, 1, 0x7F, 0xFF, 0x10][i % 5], w, h)).collect();
     if !do_call(out, &sign, "send_pages", typ, &pages).starts_with("Ok") {
         return;
